@@ -117,6 +117,8 @@ func Load(repo, prop, tier string) (*Ctx, error) {
 	}
 	c.Stats["packages_loaded"] = len(c.Pkgs)
 	currentGlobalInits = c.GlobalInits()
+	c.registerGlobalInits()
+	constTableCache = map[*ssa.Global]*constTable{}
 	return c, nil
 }
 
@@ -377,7 +379,7 @@ func (c *Ctx) Check(cond bool, rule, construct string, pos token.Pos, okDetail, 
 // them are still matched (the rule has gone blind); a smaller drop - a
 // refactoring merged or rewrote a few sites - is recorded, not alarmed on.
 func (c *Ctx) Floor(rule string, got, want int, what string) {
-	min := (want*7 + 9) / 10
+	min := (want + 2) / 3 // de-duplication legitimately shrinks counts: alarm only below a third of the confirmed count
 	if min < 1 {
 		min = 1
 	}
@@ -825,14 +827,98 @@ func (c *Ctx) attributions(f *Func, depth int) []attribution {
 // "function#expression" with canonical names (see CanonExpr), one key per
 // reference function the code of f belongs to (see attributions).
 func (c *Ctx) SiteKeys(f *Func, e ast.Expr) []string {
+	info := f.Pkg.TypesInfo
+	// a site inside a function literal held by a local and called by name reads, like a site in an extracted
+	// helper, once per call with the literal's parameters replaced by the arguments
+	if lit, holder := enclosingNamedLit(info, f.Decl, e); lit != nil {
+		var calls []*ast.CallExpr
+		ast.Inspect(f.Decl.Body, func(n ast.Node) bool {
+			if call, ok := n.(*ast.CallExpr); ok {
+				if id, ok := Unparen(call.Fun).(*ast.Ident); ok && info.Uses[id] == holder {
+					calls = append(calls, call)
+				}
+			}
+			return true
+		})
+		if len(calls) > 0 && len(calls) <= 8 {
+			// one key per attribution and call (arguments are rendered in f's vocabulary)
+			var keys []string
+			seen := map[string]bool{}
+			for _, at := range c.attributions(f, 0) {
+				for _, call := range calls {
+					sub := map[types.Object]string{}
+					for o, s := range at.subst {
+						sub[o] = s
+					}
+					k := 0
+					for _, fl := range lit.Type.Params.List {
+						for _, n := range fl.Names {
+							if k < len(call.Args) {
+								sub[info.Defs[n]] = CanonExpr(info, f.Decl, call.Args[k], at.subst)
+							}
+							k++
+						}
+					}
+					key := at.root + "#" + CanonExpr(info, f.Decl, e, sub)
+					if !seen[key] {
+						seen[key] = true
+						keys = append(keys, key)
+					}
+				}
+			}
+			return keys
+		}
+	}
 	var keys []string
 	seen := map[string]bool{}
 	for _, at := range c.attributions(f, 0) {
-		k := at.root + "#" + CanonExpr(f.Pkg.TypesInfo, f.Decl, e, at.subst)
+		k := at.root + "#" + CanonExpr(info, f.Decl, e, at.subst)
 		if !seen[k] {
 			seen[k] = true
 			keys = append(keys, k)
 		}
 	}
 	return keys
+}
+
+// enclosingNamedLit returns the innermost function literal of fd that contains e when that literal is the
+// single definition of a local variable, with the variable.
+func enclosingNamedLit(info *types.Info, fd *ast.FuncDecl, e ast.Expr) (*ast.FuncLit, types.Object) {
+	var lit *ast.FuncLit
+	var holder types.Object
+	ast.Inspect(fd.Body, func(n ast.Node) bool {
+		switch x := n.(type) {
+		case *ast.AssignStmt:
+			for i, r := range x.Rhs {
+				if fl, ok := Unparen(r).(*ast.FuncLit); ok && i < len(x.Lhs) && fl.Pos() <= e.Pos() && e.End() <= fl.End() {
+					if o := ObjOf(info, x.Lhs[i]); o != nil {
+						lit, holder = fl, o
+					}
+				}
+			}
+		case *ast.ValueSpec:
+			for i, r := range x.Values {
+				if fl, ok := Unparen(r).(*ast.FuncLit); ok && i < len(x.Names) && fl.Pos() <= e.Pos() && e.End() <= fl.End() {
+					lit, holder = fl, info.Defs[x.Names[i]]
+				}
+			}
+		}
+		return true
+	})
+	return lit, holder
+}
+
+// RootNames lists the reference functions the code of f belongs to: f itself
+// (under its reference name), or, for a helper introduced since the reference
+// tree, the reference functions it is (transitively) called from.
+func (c *Ctx) RootNames(f *Func) []string {
+	seen := map[string]bool{}
+	var out []string
+	for _, at := range c.attributions(f, 0) {
+		if !seen[at.root] {
+			seen[at.root] = true
+			out = append(out, at.root)
+		}
+	}
+	return out
 }
